@@ -761,6 +761,12 @@ class Interp:
             o = Obj(f.name.split('.')[-1], **kwargs)
             o.attrs['_args'] = args
             return o
+        if isinstance(e.func, ast.Name) and e.func.id[:1].isupper() and isinstance(self.methods.get(e.func.id, {}).get('__init__'), ast.FunctionDef):
+            # constructor of a class whose source is known: run its __init__ on an empty stand-in
+            o = Obj(e.func.id)
+            self.trace.append((e.func.id, args, kwargs))
+            self.call_function(self.methods[e.func.id]['__init__'], [o] + list(args), dict(kwargs), Env())
+            return o
         if isinstance(e.func, ast.Name) and e.func.id[:1].isupper():
             # constructor of a repository class: a stand-in with the keyword arguments as attributes
             self.trace.append((e.func.id, args, kwargs))
